@@ -7,12 +7,12 @@ ids = [json.loads(l)["id"] for l in open(os.path.join(V, "properties.jsonl"))]
 CHECKS = {
  "C02": dict(cat="exploration", design="§4 C02",
    technique="exhaustive typing matrices (operator x operand types, position x declared x supplied type, built-in method table, rule catalogue) + Hypothesis programs, with a dynamic-failure classifier and a typeof-vs-run-time-kind oracle",
-   text="Every (binary operator incl. op-assign, left type, right type) over 14 operand types, unary operators, indexing/calling/condition/loop-bound use of each type, every (typed position x declared type x supplied type) over 8 positions x 8 declared x 14 supplied types, every in-domain built-in call of C14's catalogue and ~40 boundary cases of individual typing rules are compiled; each ACCEPTED program is run and must not stop with a failure outside the language's defined dynamic failures, and for every probe the run-time kind (typed-print hook) must equal the kind of the `typeof` text. Programs of all generators are added as a random tail. The matrices are complete for the listed types; program space is sampled.",
+   text="Every (binary operator incl. op-assign, left type, right type) over 14 operand types, unary operators, indexing/calling/condition/loop-bound use of each type, the counter of a from loop for every (start kind x step kind x to/through) in every iteration, every (typed position x declared type x supplied type) over 8 positions x 8 declared x 14 supplied types, every in-domain built-in call of C14's catalogue and ~40 boundary cases of individual typing rules are compiled; each ACCEPTED program is run and must not stop with a failure outside the language's defined dynamic failures, and for every probe the run-time kind (typed-print hook) must equal the kind of the `typeof` text. Programs of all generators are added as a random tail. The matrices are complete for the listed types; program space is sampled.",
    note="Failures are classified from stderr text (table in msv/props/c02.py); a nil operand reaching an operator counts as use of nil. Soundness of programs the matrices do not contain is only sampled."),
  "C03": dict(cat="fault_enumeration", design="§4 C03",
    technique="property-based fault enumeration: Hypothesis-generated well-typed programs with recorded typed sites x a fixed catalogue of type-breaking edits, rejection/position/no-execution oracle",
-   text="Base programs are assembled from typed snippets in nine syntactic contexts (module, function, closure, method, loop body, else-if arm, else arm, through a type alias, imported module); the control must compile and run; then every applicable fault of the catalogue (value of another kind family, one argument more/fewer, wrong argument family, bare return, value in a void function, undeclared name, unknown member, call of a non-function, index of a non-indexable, non-index index, unsupported operand kinds incl. byte partners) is applied at every recorded site, one mutant per (site, fault): ~65 mutants per program, 320 programs quick / 5 000 thorough. Each mutant must exit with status 1 as a compilation failure, print a `--> file:line:col` diagnostic naming the right source file and the mutated line, and print none of the program's output. Complete over (site x fault) for each generated program; programs are sampled.",
-   note="Faults cross kind families only (numeric promotions, int -> int?, str + any, str/list * int are documented and excluded). The line oracle relies on single-line snippets."),
+   text="Base programs are assembled from typed snippets in nine syntactic contexts (module, function, closure, method, loop body, else-if arm, else arm, through a type alias, imported module); the control must compile and run; then every applicable fault of the catalogue (value of another kind family, a present OPTIONAL of the expected type, near-miss function / list / map / class types, fixed-shape list literals with a wrong, extra or missing element, a return replaced by a print in functions and methods whose returns sit in if / else-if / else arms, one argument more/fewer, wrong argument family, bare return, value in a void function, undeclared name, unknown member, call of a non-function, index of a non-indexable, non-index index, unsupported operand kinds incl. byte partners) is applied at every recorded site, one mutant per (site, fault): ~90 mutants per program, 320 programs quick / 5 000 thorough. Each mutant must exit with status 1 as a compilation failure, print a `--> file:line:col` diagnostic naming the right source file and the mutated line, and print none of the program's output. Complete over (site x fault) for each generated program; programs are sampled.",
+   note="Documented coercions (numeric promotion, T -> T?, str + any, str/list * int, operators applied to optionals) are excluded from the catalogue. The line oracle relies on single-line snippets; for a missing return any line of the enclosing function is accepted."),
  "C19": dict(cat="exploration", design="§4 C19", engine="E-cli + E-ffi",
    technique="property-based testing: enumerated + Hypothesis-generated argument vectors through hand-encoded binary bytecode and a probe dynamic library (echo oracle)",
    text="Argument vectors of length 0-6 over int, bigint, float, byte, bool and str (extremes and strings with quotes, backslashes, tabs, newlines, non-ASCII) are pushed by bytecode the harness encodes itself, passed through `call_lib` to a probe dylib built against the working tree's bytecode crate, and the probe prints the slice it received; the four return forms (echo first, echo last, no value, raised error) and the faults missing library / missing symbol are crossed with them. The probe's lines must equal the vector in order, `printn *` after the call must show exactly the returned value, and errors/faults must stop the program with exit status 1, the message on stderr and no later output. Every single value x form and a grid of pairs are enumerated; longer vectors are sampled.",
@@ -23,7 +23,7 @@ CHECKS = {
    note="Index-taking string methods only on ASCII receivers; pow/powf/sqrt floats with relative tolerance 1e-12; NaN-producing and lossy (to_ascii > 127, empty replace pattern, 0x-prefixed parser inputs) cases are not generated because no documented meaning exists."),
  "C16": dict(cat="exploration", design="§4 C16", engine="E-cli + E-fuzz",
    technique="grammar-derived generative fuzzing + token-level mutational fuzzing (Hypothesis) + enumerated boundary shapes; thorough adds a coverage-guided libFuzzer campaign whose crashes are re-judged through the CLI",
-   text="Inputs up to 4 kB are produced by a generator derived at run time from the working tree's grammar.pest (all productions, types ignored, identifier reuse), by 1-4 token edits of the example corpus and of well-typed generated programs, and by ~90 enumerated boundary shapes (deep nesting of each bracketing construct, operator chains, huge literals, unterminated tokens, misplaced keywords, odd imports); `mscript compile --quick` must exit 0 or exit 1 with diagnostics - exit 101, a signal or a reproducible 10 s watchdog hit is a violation. The thorough tier adds a 16-process libFuzzer campaign (ASan, debug assertions, grammar dictionary, corpus seeds) against the in-memory compile hook; every artifact is replayed through the real CLI before it counts.",
+   text="Inputs up to 4 kB are produced by a generator derived at run time from the working tree's grammar.pest (all productions, types ignored, identifier reuse), by 1-4 token edits of the example corpus and of well-typed generated programs, by near-miss type pairs (a random type over every type constructor, a type one structural edit away, a value of it supplied in eleven typed positions), by the complete matrix of 27 infix operators x 24 x 24 atom shapes plus prefix / postfix operators x atoms (one expression per input so that the code generator is reached) and by ~90 enumerated boundary shapes (deep nesting of each bracketing construct, operator chains, huge literals, unterminated tokens, misplaced keywords, odd imports); `mscript compile --quick` must exit 0 or exit 1 with diagnostics - exit 101, a signal or a reproducible 10 s watchdog hit is a violation. The thorough tier adds a 16-process libFuzzer campaign (ASan, debug assertions, grammar dictionary, corpus seeds) against the in-memory compile hook; every artifact is replayed through the real CLI before it counts.",
    note="Absence of crashes is only sampled. Inputs matching the two open findings (bracket nesting >= 300 / >= 12 consecutive `[`) are still generated in the CLI tiers (matched by signature) and excluded by construction inside the libFuzzer target."),
  "C11": dict(cat="exploration", design="§4 C11",
    technique="property-based testing: enumerated + Hypothesis-generated import graphs against a depth-first initialisation model, run in memory and from files",
@@ -31,7 +31,7 @@ CHECKS = {
    note="A scalar bound by `import a from m` is a value copy in this language (documented by the repository's tests), so liveness of exported scalars is checked through `m.a` and getters only. `..` cannot be spelled in import paths (grammar), so parent-directory layouts are not generated."),
  "C10": dict(cat="fault_enumeration", design="§4 C10",
    technique="exhaustive enumeration of (declaration context x type x write form x write context) programs with a reject-or-unchanged oracle",
-   text="All 679 applicable combinations of declaration context (module, function, block, class name, imported module, imported member), constant type (int, str, bool, list, optional, object), write form (=, five op-assigns, ?= in four positions, modify, index/field assignment and op-assign, loop counter with and without step, unpacking, typed re-declaration) and write context (same scope, if block, from loop, while loop, nested function, closure in a block, method) are generated in both tiers; each must be rejected at compile time without running, or run with the declaring scope and a closure created before the write still observing the initializer. Complete for this catalogue; forms outside it are not covered.",
+   text="All 1 820 applicable combinations of declaration context (module, function, block - each declared as `const C: T = v`, `const C = v`, by unpacking `const [C, z] = [v, 0]` or as `export const` - class name, imported module, imported member), constant type (int, str, bool, list, optional, object), write form (=, five op-assigns, ?= in four positions, modify, index/field assignment and op-assign, loop counter with and without step, unpacking, typed re-declaration) and write context (same scope, if block, from loop, while loop, nested function, closure in a block, method) are generated in both tiers, plus 320 control programs (the same program without the write must be accepted and run); each must be rejected at compile time without running, or run with the declaring scope and a closure created before the write still observing the initializer. Complete for this catalogue; forms outside it are not covered.",
    note="For imported members the repository's own test documents that `name = v` in the importer creates a local shadow; the oracle there requires the exporting module's value (read through the module and through an exported getter) to stay unchanged."),
  "C09": dict(cat="exploration", design="§4 C09",
    technique="generated programs + all-paths structural validity predicate over the emitted bytecode (both outcomes of every conditional jump explored), plus a run-time stack-mismatch observation",
